@@ -128,6 +128,7 @@ class Gen:
             else:
                 lines.append(self.lock_cmd(keys, ids, conns))
         if drain:
+            lines.append("adv 0")     # marker: the drain phase starts here (kept intact by the shrinker)
             lines.append("role 1")
             # answer every pending ack, then let every timeout / expiry pass (minute flags: up to 3*60+; unlimited: unlock-first)
             if self.p.get("p_ack", 0) > 0:
@@ -139,8 +140,9 @@ class Gen:
                     lines.append("req 1 U %d 1 0 %d 0 0 0 0 0 0 -" % (self.req, k))
             for step in [1] * 20 + [5] * 8 + [60] * 6:
                 lines += ["adv %d" % step, "sweept", "sweepe"]
+            nunl = sum(1 for l in lines if l.startswith("req") and l.split()[2] == "L" and int(l.split()[9]) & 0x4000)
             for k in keys:
-                for _ in range(8):
+                for _ in range(8 + 2 * nunl):
                     self.req += 1
                     lines.append("req 1 U %d 1 0 %d 0 0 0 0 0 0 -" % (self.req, k))
             for step in [1] * 20:
@@ -246,8 +248,10 @@ class Runner:
             try:
                 sys.path.insert(0, vlib.VERIF)
                 from checks import C15_data
-                if hasattr(C15_data, "derive_fixes_file"):
-                    C15_data.derive_fixes_file()
+                fx = C15_data.derive_fixes(vlib.REPO)
+                with vlib.Lock("coq"):
+                    vlib.write_if_changed(os.path.join(vlib.COQ, "Data", "FixFlags.v"), C15_data.fixflags_v(fx))
+                self.fixes = fx
             except Exception as e:  # noqa
                 ctx.notes.append("derive_fixes unavailable: %s" % e)
         self.impl = ctx.go_build("engine_implrun", os.path.join(vlib.VERIF, "harness", "engine"),
@@ -287,7 +291,10 @@ class Runner:
 
     def shrink(self, case, still_bad, max_rounds=200):
         """greedy delta-debugging on action lines (first and last line are kept)"""
-        head, body, tail = case[0], case[1:-1], case[-1]
+        head, body, tail = case[0], case[1:-1], [case[-1]]
+        if "adv 0" in body:
+            i = body.index("adv 0")
+            body, tail = body[:i], body[i:] + tail
         rounds = 0
         chunk = max(1, len(body) // 2)
         while chunk >= 1 and rounds < max_rounds:
@@ -296,14 +303,14 @@ class Runner:
             while i < len(body) and rounds < max_rounds:
                 cand = body[:i] + body[i + chunk:]
                 rounds += 1
-                if still_bad([head] + cand + [tail]):
+                if still_bad([head] + cand + tail):
                     body = cand
                     progressed = True
                 else:
                     i += chunk
             if not progressed or chunk == 1:
                 chunk //= 2
-        return [head] + body + [tail]
+        return [head] + body + tail
 
     def close(self):
         import shutil
